@@ -12,6 +12,7 @@ EXPLANATION = (
     "only as cache key / lookup index), ORDER (plain definitions are entered into a name-keyed map before any pass runs; the definition passes are keyed by name), "
     "NEUTRAL (parenthesized_expr allocates no node; the `::=`/`=` and `;`/EOF alternatives yield no value). "
     "NOT decided: (a) -- that every token boundary skips blanks/comments and that the tree is the same (C05's territory); uniqueness of the expansion result across topological orders is argued, not checked."
+    " SPANKEY: no hash container iterated in code reachable from main has a key type that holds a HumanSpan (resolved types, engine M); HASHORD shared with C10."
 )
 ASSUMPTIONS = ["rustc's trait solver for the auto-trait witnesses (nightly features auto_traits, negative_impls)", "rustc's MIR call graph for reachability of <ExprId as Display>::fmt"]
 
